@@ -69,19 +69,47 @@ Proof.
   rewrite (scan_app_lemma a b _ _ Hb Hr0 Hr). cbn [bind]. rewrite flat_map_app. reflexivity.
 Qed.
 
-Lemma fold_left_add_shift (f : tok -> Z) : forall ts z,
-  fold_left (fun a t => (a + f t)%Z) ts z = (z + fold_left (fun a t => (a + f t)%Z) ts 0)%Z.
+(* bibtex_width after fix 7dc0a71: [after_open] = the previous token opened a level-1 group *)
+Lemma width_go_shift cw : forall ts ao z, width_go cw ts ao z = (z + width_go cw ts ao 0)%Z.
 Proof.
-  induction ts as [|t ts IH]; intros z; cbn [fold_left]; [lia|].
-  rewrite (IH (z + f t)%Z), (IH (0 + f t)%Z). lia.
+  induction ts as [|t ts IH]; intros ao z; cbn [width_go]; [lia|].
+  rewrite (IH _ (z + width_tok cw ao t)%Z), (IH _ (0 + width_tok cw ao t)%Z). lia.
+Qed.
+
+Fixpoint ao_after (ts : list tok) (ao : bool) : bool :=
+  match ts with [] => ao | t :: r => ao_after r (is_open1 t) end.
+
+Lemma width_go_app cw : forall ta tb ao z,
+  width_go cw (ta ++ tb) ao z = width_go cw tb (ao_after ta ao) (width_go cw ta ao z).
+Proof. induction ta as [|t ta IH]; intros tb ao z; [reflexivity|]. cbn [app width_go ao_after]. apply IH. Qed.
+
+(* after the tokens of a text that ends at brace depth 0 the flag is off *)
+Lemma ao_after_depth : forall ts d ao, toks_ok d ts ->
+  exists e, depth_from d (concat (map fst ts)) = Some e /\
+            (ao_after ts ao = true -> (ts = [] /\ ao = true) \/ e = 1).
+Proof.
+  induction ts as [|[t l] ts IH]; intros d ao H.
+  - exists d. split; [reflexivity|]. cbn [ao_after]. auto.
+  - cbn [toks_ok] in H. destruct H as [H1 H2].
+    destruct (IH l (is_open1 (t, l)) H2) as (e & E1 & E2). exists e.
+    split; [cbn [map fst concat]; rewrite depth_from_app, H1; exact E1|].
+    cbn [ao_after]. intros Ha. right. destruct (E2 Ha) as [[-> Ho]|He]; [|exact He].
+    cbn [map concat depth_from] in E1. injection E1 as <-.
+    cbn [is_open1] in Ho. apply andb_prop in Ho as [Ho _]. apply Nat.eqb_eq in Ho. exact Ho.
 Qed.
 
 Lemma width_additive_lemma cw a b x y : balanced a -> bibtex_width cw a = Ok x -> bibtex_width cw b = Ok y ->
   bibtex_width cw (a ++ b) = Ok (x + y)%Z.
 Proof.
   unfold bibtex_width. intros Hb Ha Hbb. inv_ok.
-  rewrite (scan_app_lemma a b _ _ Hb Hr0 Hr). cbn [bind]. rewrite fold_left_app.
-  rewrite fold_left_add_shift. reflexivity.
+  rewrite (scan_app_lemma a b _ _ Hb Hr0 Hr). cbn [bind]. rewrite width_go_app.
+  assert (Hao : ao_after r0 false = false).
+  { pose proof Hr0 as Hs. apply scan_go_balanced in Hs. destruct (Hs Hb) as [Hc Ht].
+    destruct (ao_after_depth r0 0 false Ht) as (e & E1 & E2).
+    rewrite Hc in E1. unfold balanced in Hb. rewrite Hb in E1. injection E1 as <-.
+    destruct (ao_after r0 false) eqn:E; [|reflexivity].
+    destruct (E2 eq_refl) as [[_ ?]|?]; discriminate. }
+  rewrite Hao, width_go_shift. reflexivity.
 Qed.
 
 (* ------------------------------------------------------------------ bibtex_first_letter *)
@@ -258,6 +286,11 @@ Qed.
 
 (* a special character {\c...} is measured as: the two braces at their own widths, the characters
    after the backslash and the command letter (non-brace ones) at theirs, minus 1000 *)
+Lemma fold_left_shift (cw : char -> Z) : forall g z, fold_left (fun a c => a + cw c)%Z g z = (z + fold_left (fun a c => a + cw c)%Z g 0)%Z.
+Proof.
+  induction g as [|c g IH]; intros z; cbn [fold_left]; [lia|]. rewrite (IH (z + cw c)%Z), (IH (0 + cw c)%Z). lia.
+Qed.
+
 Lemma width_special_lemma cw inner w : balanced inner ->
   bibtex_width cw (c_lbrace :: c_bslash :: inner ++ [c_rbrace]) = Ok w ->
   w = (cw c_lbrace
@@ -271,6 +304,48 @@ Proof.
   cbv iota in Hr0.
   destruct (scan_special_go [] inner 0 0 [c_bslash] r0 Hb Hr0) as (r' & H1 & H2).
   cbn [scan_go] in H1. injection H1 as <-. subst r0.
-  cbn [fold_left width_tok rev app Nat.eqb andb skipn]. change (N.eqb c_bslash c_bslash) with true. change (N.eqb c_lbrace c_bslash) with false. cbv iota.
+  cbn [width_go width_tok is_open1 rev app Nat.eqb andb skipn].
+  change (is_lbrace c_lbrace) with true. change (N.eqb c_bslash c_bslash) with true.
+  change (N.eqb c_rbrace c_bslash) with false. rewrite andb_false_r. cbn [andb]. cbv iota.
   lia.
+Qed.
+
+(* the repaired behaviour (C03-F3): in an ORDINARY level-1 group -- one that does not start with a
+   backslash -- every character counts at its own width, backslashes included *)
+Lemma scan_plain_group : forall g level, Forall (fun c => is_brace c = false) g -> level <= max_level ->
+  scan_go (g ++ [c_rbrace]) (S level) None = Ok (map (fun c => ([c], S level)) g ++ [([c_rbrace], level)]).
+Proof.
+  induction g as [|c g IH]; intros level Hg Hl.
+  - cbn [app scan_go map]. change (is_lbrace c_rbrace) with false. change (is_rbrace c_rbrace) with true.
+    cbn [andb Nat.ltb Nat.leb pred scan_go bind]. reflexivity.
+  - inversion Hg as [|? ? Hc Hg']; subst. unfold is_brace in Hc. apply orb_false_elim in Hc as [El Er].
+    cbn [app scan_go map]. rewrite El, Er. cbn [andb]. rewrite (IH level Hg' Hl). reflexivity.
+Qed.
+
+Lemma width_go_plain cw : forall g l z, Forall (fun c => is_brace c = false) g ->
+  width_go cw (map (fun c => ([c], l)) g ++ [([c_rbrace], 0)]) false z =
+  (fold_left (fun a c => a + cw c) g z + cw c_rbrace)%Z.
+Proof.
+  induction g as [|c g IH]; intros l z Hg; [reflexivity|].
+  inversion Hg as [|? ? Hc Hg']; subst. unfold is_brace in Hc. apply orb_false_elim in Hc as [El _].
+  cbn [map app width_go fold_left width_tok is_open1 andb]. rewrite El, andb_false_r.
+  apply (IH l _ Hg').
+Qed.
+
+Lemma width_ordinary_group_lemma cw x inner : N.eqb x c_bslash = false ->
+  Forall (fun c => is_brace c = false) (x :: inner) ->
+  bibtex_width cw (c_lbrace :: x :: inner ++ [c_rbrace]) =
+  Ok (cw c_lbrace + fold_left (fun a c => a + cw c) (x :: inner) 0 + cw c_rbrace)%Z.
+Proof.
+  intros Hx Hg. unfold bibtex_width, scan.
+  inversion Hg as [|? ? Hc Hg']; subst. unfold is_brace in Hc. apply orb_false_elim in Hc as [El Er].
+  cbn [scan_go]. change (is_lbrace c_lbrace) with true. cbn [Nat.eqb andb]. rewrite Hx, El, Er. cbv iota.
+  change (Nat.ltb max_level 1) with false. cbn [andb]. cbv iota.
+  pose proof (scan_plain_group inner 0 Hg' (Nat.le_0_l _)) as Hs.
+  match goal with |- context [scan_go ?a 1 None] => change (scan_go a 1 None) with (scan_go (@app char inner [c_rbrace]) 1 None) end.
+  rewrite Hs. cbn [bind].
+  cbn [width_go width_tok is_open1 Nat.eqb andb]. change (is_lbrace c_lbrace) with true. cbv iota.
+  rewrite Hx, El. cbn [andb]. cbv iota.
+  rewrite (width_go_plain cw inner 1 _ Hg'). cbn [fold_left]. f_equal.
+  rewrite (fold_left_shift cw inner (0 + cw c_lbrace + cw x)), (fold_left_shift cw inner (0 + cw x)). lia.
 Qed.
